@@ -563,7 +563,8 @@ def emit_locks():
                         callee = '.' + name2
                 else:
                     callee = name2
-                    if name2 in aliases or name2.endswith('_fn') or name2.endswith('_hook'):
+                    # (a local alias of a callback is called as a plain identifier: `Type::name(..)` is a path, not that local)
+                    if (pre is None and name2 in aliases) or name2.endswith('_fn') or name2.endswith('_hook'):
                         callee = 'NET:' + name2
                     elif name2 in NET_FREE:
                         callee = 'NET:' + name2
@@ -608,25 +609,54 @@ def emit_locks():
 
 # ---------------------------------------------------------------- constants
 def emit_consts():
-    cfg = open(os.path.join(REPO, 'library/src/config.rs')).read()
-    m = re.search(r'(?:pub(?:\([^)]*\))?\s+)?const DEFAULT_CHANNEL: &str = "([^"]*)";', cfg)
-    if not m:
+    # the default channel: a `const DEFAULT_CHANNEL: &str` (free or associated, any visibility) somewhere in the library
+    chan = None
+    for fn_ in sorted(os.listdir(os.path.join(REPO, 'library/src'))):
+        if fn_.endswith('.rs'):
+            m = re.search(r'const\s+DEFAULT_CHANNEL\s*:\s*&(?:\'static\s+)?str\s*=\s*"([^"]*)"\s*;', strip_tests(open(os.path.join(REPO, 'library/src', fn_)).read()))
+            if m:
+                chan = m.group(1)
+                break
+    if chan is None:
         raise Bad('DEFAULT_CHANNEL not found')
-    chan = m.group(1)
     net = strip_tests(open(os.path.join(REPO, 'library/src/network.rs')).read())
-    cm = re.search(r'fn patches_check_url.*?format!\("\{base_url\}([^"]*)"\)', net, flags=re.S)
-    em = re.search(r'fn patches_events_url.*?format!\("\{base_url\}([^"]*)"\)', net, flags=re.S)
-    if not cm or not em:
-        raise Bad('URL builders not recognised')
+    # the two endpoint paths: string literals "/api/..." in network.rs, with or without a leading {base_url}
+    sufs = [l.replace('{base_url}', '') for l in re.findall(r'"((?:\{base_url\})?/api/[^"]*)"', strip_comments(net))]
+    class _M:
+        def __init__(self, v): self.v = v
+        def group(self, i): return self.v
+    cks = sorted(set(x for x in sufs if 'check' in x))
+    evs = sorted(set(x for x in sufs if 'event' in x))
+    if len(cks) != 1 or len(evs) != 1:
+        raise Bad('endpoint paths not recognised (%r)' % (sufs,))
+    cm, em = _M(cks[0]), _M(evs[0])
     ev = open(os.path.join(REPO, 'library/src/events.rs')).read()
-    names = re.findall(r'EventType::(\w+) => "([^"]+)"', ev)
-    names = sorted(set(names))
+    # the wire name of every event type: match arms or table rows, the string given literally or through a `const NAME: &str`
+    evc = strip_comments(strip_tests(ev))
+    consts = dict(re.findall(r'const\s+(\w+)\s*:\s*&(?:\'static\s+)?str\s*=\s*"([^"]*)"\s*;', evc))
+    names = set()
+    for var, lit, ident in re.findall(r'EventType::(\w+)\s*(?:=>|,)\s*(?:"([^"]+)"|([A-Z][A-Z0-9_]*)\b)', evc):
+        if lit:
+            names.add((var, lit))
+        elif ident in consts:
+            names.add((var, consts[ident]))
+    names = sorted(names)
+    if len(names) < 3 or len(set(v for v, _ in names)) != len(names):
+        raise Bad('event type names not recognised (%r)' % (names,))
     rm = re.search(r'pub struct PatchCheckRequest \{(.*?)\n\}', strip_comments(net), flags=re.S)
     fields = re.findall(r'pub (\w+): String', rm.group(1)) if rm else []
     if not fields:
         raise Bad('PatchCheckRequest fields not recognised')
-    newm = re.search(r'impl PatchCheckRequest \{.*?PatchCheckRequest \{(.*?)\}\s*\}\s*\}', net, flags=re.S)
-    assigns = re.findall(r'(\w+): ([^,\n]+),', newm.group(1)) if newm else []
+    # the struct literal that builds the request (in `new`, a From impl, a helper ...): the first `PatchCheckRequest { .. }` /
+    # `Self { .. }` literal of the non-test code that names every member of the struct
+    assigns = []
+    for lit in re.findall(r'(?:PatchCheckRequest|Self)\s*\{([^{}]*)\}', strip_comments(net)):
+        a = re.findall(r'(\w+)\s*:\s*([^,\n]+),?', lit)
+        if a and set(fields) <= set(x for x, _ in a) and all(re.search(r'[a-z_]\(|\.', b) for _, b in a):
+            assigns = [(x, y) for x, y in a if x in fields]
+            break
+    if not assigns:
+        raise Bad('the construction of PatchCheckRequest was not recognised')
     # where each field comes from, reduced to the config field / function it names (not the exact expression)
     def src_key(e):
         m1 = re.search(r'config\.(\w+)', e)
